@@ -213,7 +213,7 @@ def prim_sizes(st):
 
 
 def run(ctx):
-    return evaluate(ctx, gen(ctx), ["dbg"] if ctx.quick else ["dbg", "rel"])
+    return evaluate(ctx, gen(ctx), ["dbg", "isa"] if ctx.quick else ["dbg", "isa", "rel"])
 
 
 def replay(ctx):
